@@ -182,7 +182,14 @@ where
     type Values = Timeline::Target;
 
     fn advance(&mut self, elapsed_seconds: f32) {
-        self.state_duration += Duration::from_secs_f32(elapsed_seconds);
+        // Saturate instead of panicking when the elapsed time or the accumulated time in state
+        // exceeds what a `Duration` can hold; negative and NaN values still panic.
+        let elapsed = if elapsed_seconds >= Duration::MAX.as_secs_f32() {
+            Duration::MAX
+        } else {
+            Duration::from_secs_f32(elapsed_seconds)
+        };
+        self.state_duration = self.state_duration.saturating_add(elapsed);
         self.update_current_values();
     }
 
